@@ -66,6 +66,15 @@ fn diff(a: &Value, b: &Value, path: String) -> Option<String> {
     }
 }
 
+/// the document without null members (an absent optional field and an explicit null are the same document)
+fn strip_nulls(v: &Value) -> Value {
+    match v {
+        Value::Object(m) => Value::Object(m.iter().filter(|(_, x)| !x.is_null()).map(|(k, x)| (k.clone(), strip_nulls(x))).collect()),
+        Value::Array(a) => Value::Array(a.iter().map(strip_nulls).collect()),
+        other => other.clone(),
+    }
+}
+
 fn ser_problem(p: &vrp_pragmatic::format::problem::Problem) -> Result<String, String> {
     let mut buf = BufWriter::new(Vec::new());
     serialize_problem(p, &mut buf).map_err(|e| e.to_string())?;
@@ -102,7 +111,7 @@ fn handle(case: &Value) -> Value {
                 let (v0, v1, v2): (Value, Value, Value) = (case["doc"].clone(), serde_json::from_str(&t1).unwrap(), serde_json::from_str(&t2).unwrap());
                 let d12 = diff(&v1, &v2, String::new());
                 // every field of the original document that survives under the same name has the same value after one pass
-                let d01 = diff(&v0, &v1, String::new());
+                let d01 = diff(&strip_nulls(&v0), &strip_nulls(&v1), String::new());
                 json!({"status": "ok", "fixpoint": d12.is_none(), "fixpointDiff": d12.unwrap_or_default(), "firstPassSame": d01.is_none(), "firstPassDiff": d01.unwrap_or_default()})
             }
             "init" => {
